@@ -40,7 +40,7 @@ FOpts == { Fld("f", "file", fl0, FALSE, "any", << File(d, "a.txt") >>, "")
          \cup { Fld("f", "file", fl0, FALSE, m, << File(<< W("d1") >>, "a.txt") >>, "")
              : fl0 \in {"", "-f"}, m \in CopyModesF \ {"any"} }
 GFlags == {"-g"} \cup (IF Rich THEN {""} ELSE {})
-GModes == {"copy"} \cup (IF Rich THEN {"link"} ELSE {})
+GModes == {"copy", "link"}      \* both orders of a writable and a read-only input sharing the job directory
 GOpts == { Fld("g", "file", fl0, FALSE, "any", << File(d, "b.txt") >>, "") : fl0 \in GFlags, d \in Dirs }
          \cup { Fld("g", "file", fl0, FALSE, m, << File(<< W("d2") >>, "b.txt") >>, "")
                 : fl0 \in GFlags, m \in GModes }
